@@ -17,7 +17,7 @@ fn expected(c: &SimCase) -> [Vec<i128>; 4] {
     let mut cr = vec![];
     let mut ss = vec![];
     let mut sr = vec![];
-    for (t, sent) in &c.trace {
+    for (t, sent) in &effective_trace(c) {
         let t = *t as i128;
         if *sent {
             cs.push(t);
@@ -55,12 +55,41 @@ impl Prop for C14 {
 
     fn profiles(tier: Tier) -> Vec<Profile> {
         match tier {
-            Tier::Quick => vec![prof("traces", 60_000)],
-            Tier::Thorough => vec![prof("traces", 1_000_000)],
+            Tier::Quick => vec![prof("traces", 60_000), prof("huge", 4)],
+            Tier::Thorough => vec![prof("traces", 1_000_000), prof("huge", 48)],
         }
     }
 
-    fn strategy(_profile: &str) -> BoxedStrategy<SimCase> {
+    fn strategy(profile: &str) -> BoxedStrategy<SimCase> {
+        if profile == "huge" {
+            // hundreds of thousands of packets (limits that only bite on very long inputs)
+            return (trace(100), delay(), 2600u32..4200, seed())
+                .prop_map(|(mut trace, delay_ns, repeat, seed)| {
+                    while trace.len() < 100 {
+                        let t = trace.last().map(|x| x.0 + 700_000).unwrap_or(0);
+                        trace.push((t, trace.len() % 3 != 0));
+                    }
+                    SimCase {
+                        trace,
+                        delay_ns,
+                        pps: None,
+                        client: vec![],
+                        server: vec![],
+                        fracs: [Fx(0.0); 4],
+                        seed,
+                        max_trace_length: 0,
+                        max_sim_iterations: 0,
+                        continue_after: false,
+                        only_client: false,
+                        only_network: false,
+                        hand_queue: false,
+                        pad_lines: vec![],
+                        line_style: 0,
+                        repeat,
+                    }
+                })
+                .boxed();
+        }
         (trace(120), delay(), any::<bool>(), any::<bool>(), seed(), text_extras())
             .prop_map(|(trace, delay_ns, hand_queue, long, seed, (pad_lines, line_style))| {
                 let n = trace.len();
@@ -80,6 +109,7 @@ impl Prop for C14 {
                     hand_queue,
                     pad_lines,
                     line_style,
+                    repeat: 0,
                 }
             })
             .boxed()
@@ -90,6 +120,9 @@ impl Prop for C14 {
         let (sq, known_anchor) = build_queue(c);
         let after = Instant::now();
         let exp = expected(c);
+        if c.repeat > 1 {
+            obs.hit("more_than_250000_packets");
+        }
         // classification
         let sent = c.trace.iter().filter(|x| x.1).count();
         let recv = c.trace.len() - sent;
@@ -136,7 +169,7 @@ impl Prop for C14 {
             cc.only_network = only_network;
             if cc.max_trace_length > 0 {
                 // sufficient for the selected filter too
-                cc.max_trace_length = 4 * c.trace.len() + 10;
+                cc.max_trace_length = 4 * effective_trace(c).len() + 10;
             }
             let mut q = sq.clone();
             let events = if simple { run_simple(&cc, &mut q, &[], &[]) } else { run_advanced(&cc, &mut q, &[], &[]).events };
@@ -198,7 +231,7 @@ impl Prop for C14 {
     }
 
     fn required_classes() -> Vec<&'static str> {
-        vec!["burst_of_equal_timestamps", "eleven_packets_within_100ms", "zero_delay", "hand_built_queue", "sustained_two_way_traffic_over_a_second", "input_with_ignored_padding_lines"]
+        vec!["burst_of_equal_timestamps", "eleven_packets_within_100ms", "zero_delay", "hand_built_queue", "sustained_two_way_traffic_over_a_second", "input_with_ignored_padding_lines", "more_than_250000_packets"]
     }
 
     fn assumptions() -> Vec<&'static str> {
